@@ -170,15 +170,16 @@ func (c *Cache) ReadDir(src string) (result []os.FileInfo, err error) {
 	if remoteErr != nil && bufferErr != nil {
 		return nil, goaterr.ToError(goaterr.AppendError(nil, remoteErr, bufferErr))
 	}
-	result = remoteDirs
+	// buffered nodes are newer than the remote ones: they win when both have the name
+	result = bufferDirs
 ReadDirLoop:
-	for _, bnode := range bufferDirs {
-		for _, cnode := range remoteDirs {
-			if bnode.Name() == cnode.Name() {
+	for _, rnode := range remoteDirs {
+		for _, bnode := range bufferDirs {
+			if bnode.Name() == rnode.Name() {
 				continue ReadDirLoop
 			}
 		}
-		result = append(result, bnode)
+		result = append(result, rnode)
 	}
 	return result, nil
 }
